@@ -179,6 +179,11 @@ def _range_cases(steps):
     return out
 
 
+# (deformation, eta, prob, method) alphabet of the history part
+_HISTORY_ALPHABET = [(d, e, pr, 'direct') for d in (None, 'XZZX') for e in ('0.5', '10', '0.5,10')
+                     for pr in ('0.1', '0.1:0.3:0.1')]
+
+
 def cases(tier, seed):
     registered = _decoder_table()
     triples = [t for t in QUICK_TRIPLES if t[2] in registered] if tier == 'quick' else _thorough_triples()
@@ -196,6 +201,14 @@ def cases(tier, seed):
                         gen.append({'part': 'generate', 'cls': cls, 'sizes': sizes, 'decoder': dec,
                                     'method': method, 'deformation': deformation, 'bias': bias,
                                     'etas': list(etas)})
+    # histories: several generate-input invocations in ONE process (a session / a script calling the
+    # command repeatedly); every invocation is judged by the same absolute oracle as when run alone
+    hist = []
+    for cls, sizes, dec in ([triples[0]] if tier == 'quick' else triples[:6]):
+        for bias in BIASES:
+            for first in range(len(_HISTORY_ALPHABET)):
+                hist.append({'part': 'history', 'cls': cls, 'sizes': sizes, 'decoder': dec, 'bias': bias,
+                             'first': first})
     rng = _range_cases(steps)
     # simplest first: the coarsest range step, the simplest command lines of either method, then the rest
     head = [c for c in rng if c['step'] == '0.1']
@@ -206,7 +219,7 @@ def cases(tier, seed):
     rest_gen = [c for c in gen if c not in head]
     # slow decoder cases early so that the pool stays balanced
     rest_gen.sort(key=lambda c: 0 if c['decoder'] == 'MemoryBeliefPropagationDecoder' else 1)
-    return head + rest_rng + rest_gen
+    return head + rest_rng + rest_gen + hist
 
 
 # --------------------------------------------------------------------------- oracle helpers
@@ -549,7 +562,42 @@ def _eval_range(case):
     return res
 
 
+def _eval_history(case):
+    res = {'evals': 0, 'nontrivial': 0, 'skipped': 0, 'violations': [], 'samples': [], 'outcomes': [],
+           'extra': {'history_invocations': 0, 'history_problems_total': 0}}
+    cls = case['cls']
+    dim = 2 if cls in DIM2 else 3
+    alphabet = [a for a in _HISTORY_ALPHABET if a[0] is None or cls in HAS_XZZX]
+    if case['first'] >= len(alphabet):
+        return res
+    order = [alphabet[case['first']]] + alphabet          # first invocation, then every invocation after it
+    outcomes = set()
+    for pos, (deformation, eta, prob, method) in enumerate(order):
+        sub = {'cls': cls, 'sizes': case['sizes'], 'decoder': case['decoder'], 'method': method,
+               'deformation': deformation, 'bias': case['bias']}
+        problems, info = _one_invocation(sub, eta, prob, None, dim)
+        res['evals'] += 1
+        res['extra']['history_invocations'] += 1
+        res['extra']['history_problems_total'] += len(problems)
+        if pos > 0:
+            res['nontrivial'] += 1
+        outcomes.add('h|f%d|s%d|%s' % (info['files'], info['sims'], ','.join(sorted({k for k, _ in problems})) or 'ok'))
+        for kind, detail in problems[:1]:
+            if len(res['violations']) < 3:
+                res['violations'].append({
+                    'key': {'part': 'history', 'kind': kind, 'cls': cls, 'sizes': case['sizes'],
+                            'decoder': case['decoder'], 'bias': case['bias'], 'position': pos,
+                            'deformation': deformation, 'eta': eta, 'prob': prob,
+                            'first_invocation': list(map(str, order[0]))},
+                    'detail': dict(detail, history=[list(map(str, o)) for o in order[:pos + 1]])})
+    res['samples'].append({'cls': cls, 'bias': case['bias'], 'history': [list(map(str, o)) for o in order[:3]]})
+    res['outcomes'] = sorted(outcomes)[:50]
+    return res
+
+
 def eval_case(case):
+    if case['part'] == 'history':
+        return _eval_history(case)
     import warnings
     warnings.filterwarnings('ignore')
     if case['part'] == 'range':
